@@ -223,6 +223,11 @@ def parse_unit(name, vacuity=False):
             file, nm = lhs.split(None, 1)
             check_stub(u, file.strip(), nm.strip(), sig.strip())
             i += 1
+        elif s.startswith("//@assume "):
+            # //@assume <unit> <file> <fn> : the contract proved for <fn> in <unit>, reused here as an assumed callee contract
+            _, un2, file, nm = s.split(None, 3)
+            emit_assumed(u, un2.strip(), file.strip(), nm.strip())
+            i += 1
         elif s.startswith("//@fn "):
             rest = s[len("//@fn "):].strip()
             file, nm = rest.split(None, 1)
@@ -239,6 +244,65 @@ def parse_unit(name, vacuity=False):
             u.emit(line, {"kind": "unit", "unit_line": i + 1})
             i += 1
     return u
+
+
+def unit_source_lines(un):
+    path = os.path.join(VERIF, "units", un + ".rs")
+    raw = open(path).read().split("\n")
+    k = 0
+    while k < len(raw):
+        st = raw[k].strip()
+        if st.startswith("//@include ") and st.endswith(".inc"):
+            rel = st.split(None, 1)[1].strip()
+            raw[k:k + 1] = open(os.path.join(VERIF, rel)).read().rstrip("\n").split("\n")
+            continue
+        k += 1
+    return raw
+
+
+def emit_assumed(u, un2, file, nm):
+    raw = unit_source_lines(un2)
+    hdr = "//@fn %s %s" % (file, nm)
+    idx = [k for k, l in enumerate(raw) if l.strip() == hdr]
+    if len(idx) != 1:
+        raise Undecided("//@assume: %s not under contract in unit %s" % (nm, un2))
+    k = idx[0] + 1
+    spec_lines, ret, mode = [], "r", None
+    while raw[k].strip() != "//@end":
+        st = raw[k].strip()
+        if st.startswith("//@spec"):
+            mode = "spec"
+        elif st.startswith("//@ret"):
+            ret = st.split()[1]
+            mode = None
+        elif st.startswith("//@"):
+            mode = None
+        elif mode == "spec":
+            spec_lines.append(LABEL_RE.sub("", raw[k]).rstrip())
+        k += 1
+    it = find_item(file, nm)
+    b = src_bytes(file)
+    info = {"kind": "assumed", "fn": nm}
+    if it["impl_header"] is not None:
+        u.emit(it["impl_header"].rstrip() + " {", info)
+    u.emit("#[verifier::external_body]", info)
+    sig_start = it["vis"]["end"] if it.get("vis") else it["start"]
+    if it["ret_start"] is not None:
+        sig_txt = b[sig_start:it["ret_start"]].decode() + "-> (" + ret + ": " + it["ret_ty"] + ")" + b[it["ret_end"]:it["body_open"]].decode().rstrip()
+    else:
+        sig_txt = b[sig_start:it["body_open"]].decode().rstrip()
+    u.emit(sig_txt, info)
+    # decreases clauses make no sense on an external_body fn
+    for l in spec_lines:
+        if re.match(r"\s*decreases\b", l):
+            continue
+        u.emit(l, info)
+    u.emit("{ unimplemented!() }", info)
+    if it["impl_header"] is not None:
+        u.emit("}", info)
+    u.stubs.append({"name": nm, "file": file, "line_start": it["line_start"], "line_end": it["line_end"],
+                    "signature": b[it["fn_token"]:it["sig_end"]].decode(), "sha256": sha(b[it["start"]:it["end"]]),
+                    "proved_in": un2})
 
 
 def norm_sig(s):
@@ -758,9 +822,11 @@ if __name__ == "__main__":
         sys.exit(2)
     wd = sys.argv[2] if len(sys.argv) > 2 else os.path.join(VERIF, "build", "units")
     os.makedirs(wd, exist_ok=True)
-    res = run_verus(name, u.text(), wd)
+    res = run_verus(name, u.text(), wd, extra_args=["--multiple-errors", "40"])
     c = classify(u, res)
-    print(json.dumps({k: v for k, v in c.items() if k not in ("raw",)}, indent=1)[:6000])
+    for f in c.get("failures", []):
+        f.pop("rendered", None)
+    print(json.dumps({k: v for k, v in c.items() if k not in ("raw",)}, indent=1)[:60000])
     if c["status"] == "undecided":
         for d in c.get("raw", [])[:8]:
             print(d.get("rendered", "")[:1500])
